@@ -101,6 +101,7 @@ def run_impl(cfg, workdir, sampler_hook=None, reuse=None, tag="run"):
     tseed = cfg["tseed"]
     target = FnTarget(d, seed=tseed, special_rate=cfg["special"], glog=glog,
                       misfit_palette=[float("nan"), float("inf"), float("-inf"), 1e300, 700.0])
+    target.script = cfg.get("mis_script")
     m0 = numpy.array(cfg["m0"], dtype=float).reshape(d, 1)
     # the code refuses NaN/inf initial misfits: pick the first admissible seed deterministically
     while not math.isfinite(target.misfit_value(m0)):
@@ -182,6 +183,7 @@ def run_impl(cfg, workdir, sampler_hook=None, reuse=None, tag="run"):
     else:
         mass = FnMass(d, seed=cfg["mseed"], inv_diag=cfg["invdiag"], special_rate=cfg["special"] / 2, glog=glog)
         mass.name = "scripted mass matrix"
+        mass.script = cfg.get("kin_script")
         r.mass = mass
         kwargs.update(stepsize=cfg["stepsize"], randomize_stepsize=cfg["randomize"], amount_of_steps=cfg["steps"],
                       mass_matrix=mass, integrator=cfg["integrator"])
